@@ -15,17 +15,24 @@ OBLIGATIONS = [
     "KafVerif.C42.closures_idempotent_partial",
     "KafVerif.C42.unclassified_can_break_idempotence",
     "KafVerif.C42.closures_nonvacuous",
+    "KafVerif.C42.owned_names_table_ok",
+    "KafVerif.C42.owned_names_injective",
+    "KafVerif.C42.cut_names_can_collide",
 ]
 BUILDS = {"h": ("root", "./cmd/verif_c42", ["C42"])}
 LEVEL_TEXT = ("Partial. Lean 4: every CreateOrUpdate mutate closure of pkg/operator, translated on every run by a go/ast pass into a small "
               "IR (object-free assignments under object-free guards, assign-then-default, SetControllerReference; anything else that "
               "mentions the object is `other`), lies in the fragment (closures_in_fragment, decide) for which run p (run p o) = run p o "
               "is proved for every environment and every object (fragment_idempotent), the written fields do not depend on the existing "
-              "object, and the reachable code contains no time/rand call and no map-range feeding a slice (renders_pure).")
+              "object, and the reachable code contains no time/rand call and no map-range feeding a slice (renders_pure). The Name expressions of all "
+              "CreateOrUpdate sites, regenerated from the source, are cluster name + literal suffix with distinct suffixes per kind, hence for "
+              "every cluster name distinct sites own distinct objects (owned_names_injective).")
 LEVEL_NOTE = ("The theorem is about the translated IR, not the Go code: the translator is trusted and is validated on every run (every field "
               "the real reconcile sets must be covered by an IR write of a closure of that object type). The fake client stands in for the "
               "API server: defaulting webhooks and server-side mutation are not modelled. Idempotence of the real code is TESTED: generated "
-              "cluster specs x operator environments reconciled 3x + once on a fresh client, all objects deep-compared.")
+              "cluster specs x operator environments (cluster names up to 60 chars) reconciled 3x + once on a fresh client, all objects "
+              "deep-compared; every write request of the repeat passes is recorded through a client interceptor (must be none), resourceVersions "
+              "are compared between passes, and the per-kind object count is compared with the same spec under a short cluster name.")
 TECHNIQUE = "Lean 4 idempotence theorem over a go/ast-translated IR of the mutate closures + 3x reconcile against controller-runtime's fake client"
 ASSUMPTIONS = [
     "the go/ast translator is faithful: a statement is `assign` only if its right-hand side does not mention the object variable; helper calls on locals are object-free",
@@ -85,7 +92,7 @@ def parse_extract(out):
             if not m:
                 raise RuntimeError("unparsable closure line: " + l)
             cur = {"idx": int(m.group(1)), "func": m.group(2), "obj": m.group(3), "type": m.group(4),
-                   "name": json.loads(m.group(5)), "file": m.group(6), "line": int(m.group(7)), "stmts": [], "impure": []}
+                   "name": json.loads(m.group(5)), "file": m.group(6), "line": int(m.group(7)), "stmts": [], "impure": [], "names": []}
             closures.append(cur)
         elif l.startswith("stmt "):
             m = re.match(r'stmt (\d+) (\d+) (\S+) (\S+) ("(?:[^"\\]|\\.)*")$', l)
@@ -95,6 +102,11 @@ def parse_extract(out):
         elif l.startswith("impure "):
             m = re.match(r'impure (\d+) ("(?:[^"\\]|\\.)*")$', l)
             cur["impure"].append(json.loads(m.group(2)))
+        elif l.startswith("name "):
+            m = re.match(r'name (\d+) (\S+) ("(?:[^"\\]|\\.)*") ("(?:[^"\\]|\\.)*")$', l)
+            if not m:
+                raise RuntimeError("unparsable name line: " + l)
+            cur["names"].append((m.group(2), json.loads(m.group(3)), json.loads(m.group(4))))
         elif l.startswith("closures "):
             total = int(l.split()[1])
     if total is None or total != len(closures) or not closures:
@@ -182,7 +194,21 @@ def generate(ck):
         src += ",\n".join(rows) + "]\n"
     src += "def closures : List Closure := [\n" + ",\n".join(
         "  { func := %s, objType := %s, prog := prog%d, impure := %d }" % (lean_str(c["func"]), lean_str(c["type"]), c["idx"], len(c["impure"]))
-        for c in closures) + "]\nend KafVerif.Gen.C42\n"
+        for c in closures) + "]\n"
+    # names of the owned objects: one row per (CreateOrUpdate site, resolved Name expression); kinds are interned, suffixes are
+    # byte lists (kernel `decide` does not reduce String operations)
+    kinds = {}
+    rows = []
+    for c in closures:
+        if not c["names"]:
+            raise RuntimeError("extractor reported no Name expression for closure %d" % c["idx"])
+        for form, suffix, text in c["names"]:
+            k = kinds.setdefault(c["type"], len(kinds) + 1)
+            f = ".concat %s" % list(suffix.encode()) if form == "concat" else ".other"
+            rows.append("  -- %s %s:%d  %s\n  { closure := %d, kind := %d, form := %s }" % (c["type"], c["file"], c["line"], text.replace("\n", " "), c["idx"], k, f))
+    src += "/-- kind ids: " + ", ".join("%d=%s" % (v, k) for k, v in kinds.items()) + " -/\n"
+    src += "def nameSites : List NameSite := [\n" + ",\n".join(rows) + "]\nend KafVerif.Gen.C42\n"
+    ck._c42["names"] = [(c["type"], n) for c in closures for n in c["names"]]
     old = open(GEN).read() if os.path.exists(GEN) else None
     if old != src:
         os.makedirs(os.path.dirname(GEN), exist_ok=True)
@@ -195,6 +221,8 @@ def generate(ck):
         for _, atom, _ in fl:
             d["ir_" + atom[0]] = d.get("ir_" + atom[0], 0) + 1
     d["purity_findings"] = sum(len(c["impure"]) for c in closures)
+    d["owned_name_sites"] = sum(len(c["names"]) for c in closures)
+    d["owned_name_sites_not_plain_concat"] = sum(1 for c in closures for n in c["names"] if n[0] != "concat")
 
 
 # ------------------------------------------------------------------ generator of cluster specs
@@ -294,16 +322,44 @@ def gen_spec(rng):
     return spec
 
 
+LONG_NAME_LENGTHS = [30, 32, 33, 34, 35, 40, 51, 52, 53, 60]
+MANAGED_ENVS = [0, 1, 2, 4, 6]      # indices into ENVS without external endpoints and with maintenance enabled
+
+
+def long_name(rng, n):
+    """a valid DNS-1123 label of exactly n characters (n <= 63)"""
+    words = ["analytics", "streaming", "platform", "prod", "eu", "west", "1", "kafka", "payments", "ledger", "x9", "tier", "blue"]
+    s = rng.choice(["analytics-streaming-platform-prod-1", "payments-ledger-kafka-eu-west-1", "a1"])
+    while len(s) < n:
+        s += "-" + rng.choice(words)
+    s = s[:n]
+    if s.endswith("-"):
+        s = s[:-1] + "z"
+    return s
+
+
 def gen_case(rng, i):
     name = rng.choice(["demo", "prod-kafka", "a", "c-%d" % rng.below(100)])
     env = dict(rng.choice(ENVS))
     if rng.chance(1, 4):
         env.update(rng.choice(ENVS))
-    return {"name": name, "namespace": rng.choice(["default", "kafscale"]), "spec": gen_spec(rng) if i else
-            {"brokers": {"service": {"annotations": {"a/%d" % k: "v" for k in range(8)}}},
-             "s3": {"bucket": "b", "region": "r", "credentialsSecretRef": "creds"}, "etcd": {"endpoints": []},
-             "lfsProxy": {"enabled": True, "service": {"annotations": {"l/%d" % k: "v" for k in range(8)}}}},
-            "env": env if i else {"KAFSCALE_OPERATOR_ETCD_SNAPSHOT_BUCKET": "snapshots"}, "rounds": 3}
+    spec = gen_spec(rng)
+    # long cluster names (derived object names approach / pass the 52 and 63 character limits); the first three cases
+    # of every run are managed-etcd clusters with >= 34-character names, so that stream does not depend on the seed
+    forced = i < 3
+    if forced or rng.chance(2, 5):
+        n = [35, 34, 52][i] if forced else rng.choice(LONG_NAME_LENGTHS + [rng.range(30, 60)])
+        name = long_name(rng, n)
+        if forced or rng.chance(2, 3):
+            env = dict(ENVS[rng.choice(MANAGED_ENVS)])
+            spec["etcd"] = {"endpoints": []}
+    if i == 0:
+        spec = {"brokers": {"service": {"annotations": {"a/%d" % k: "v" for k in range(8)}}},
+                "s3": {"bucket": "b", "region": "r", "credentialsSecretRef": "creds"}, "etcd": {"endpoints": []},
+                "lfsProxy": {"enabled": True, "service": {"annotations": {"l/%d" % k: "v" for k in range(8)}}}}
+        env = {"KAFSCALE_OPERATOR_ETCD_SNAPSHOT_BUCKET": "snapshots"}
+    return {"name": name, "twin": "a" if name != "a" else "b", "namespace": rng.choice(["default", "kafscale"]), "spec": spec,
+            "env": env, "rounds": 3}
 
 
 # ------------------------------------------------------------------ run
@@ -324,21 +380,62 @@ def run_impl(ck, binary, cases, tag):
     return res, None
 
 
-def monitor(case, res):
-    """the property on one case; returns (fingerprint, what) or None"""
+def monitor_all(case, res):
+    """the property on one case; returns a list of (fingerprint, what)"""
     if "panic" in res:
-        return "reconcile-panic", "reconcile panicked: %s" % res["panic"][:200]
+        return [("reconcile-panic", "reconcile panicked: %s" % res["panic"][:200])]
     if res.get("err"):
-        return None   # a spec the operator rejects is not an idempotence question (counted)
+        return []   # a spec the operator rejects is not an idempotence question (counted)
+    hits = []
     for i, r in enumerate(res.get("rounds", [])):
         if r != "same":
             kind = re.sub(r"^diff\(([^/:]+).*$", r"\1", r)
-            return "reconcile-not-idempotent:" + kind, "reconcile #%d changed an object produced by reconcile #%d: %s" % (i + 2, i + 1, r)
+            hits.append(("reconcile-not-idempotent:" + kind, "reconcile #%d changed an object produced by reconcile #%d: %s" % (i + 2, i + 1, r)))
+            break
     if res.get("fresh") != "same":
         kind = re.sub(r"^diff\(([^/:]+).*$", r"\1", res.get("fresh", "?"))
-        return "render-not-deterministic:" + kind, ("two reconciles of the same cluster and environment on fresh API servers rendered "
-                                                    "different objects: %s" % res.get("fresh"))
-    return None
+        hits.append(("render-not-deterministic:" + kind, ("two reconciles of the same cluster and environment on fresh API servers rendered "
+                                                         "different objects: %s" % res.get("fresh"))))
+    # write monitor: a repeat reconcile of an unchanged cluster sends no write request (CreateOrUpdate only calls Update when
+    # the mutated object differs from the fetched one) and moves no resourceVersion
+    rw = res.get("repeat_writes")
+    if rw is not None:
+        # the only write HEAD repeats: deleteLegacyBrokerDeployment deletes `<name>-broker` unconditionally and gets NotFound —
+        # a Delete answered NotFound changed nothing and is not counted; every other request is
+        rw = [w for w in rw if not (w["op"].endswith(":delete") and w["rv1"] == "notfound")]
+    if rw is None or "rv" not in res:
+        hits.append(("harness-incomplete", "harness did not report repeat_writes / rv"))
+    else:
+        if rw:
+            w = rw[0]
+            hits.append(("reconcile-repeat-writes:" + w["kind"],
+                         "reconcile of an unchanged cluster sent %d write request(s) after the first pass; first: %s %s/%s resourceVersion %s->%s; all: %s"
+                         % (len(rw), w["op"], w["kind"], w["name"], w["rv0"], w["rv1"],
+                            ", ".join("%s %s/%s" % (x["op"], x["kind"], x["name"]) for x in rw[:8]))))
+        else:
+            for i, r in enumerate(res["rv"]):
+                if r != "same":
+                    kind = re.sub(r"^diff\(([^/:]+).*$", r"\1", r)
+                    hits.append(("reconcile-repeat-writes:" + kind, "resourceVersion of an owned object moved between reconcile #%d and #%d "
+                                 "of an unchanged cluster: %s" % (i + 1, i + 2, r)))
+                    break
+    tw = res.get("twin")
+    if tw is not None and tw != "same":
+        if tw.startswith("err:"):
+            hits.append(("owned-object-count:twin-reconcile-error", "the same spec/env under cluster name %r failed to reconcile while %r "
+                         "reconciled: %s" % (case.get("twin"), case["name"], tw)))
+        else:
+            kind = re.sub(r"^diff\(([^/:]+).*$", r"\1", tw)
+            hits.append(("owned-object-count:" + kind, "the same spec and environment own a different number of objects under cluster name %r "
+                         "(%d chars) than under %r: %s (twin->this)" % (case["name"], len(case["name"]), case.get("twin"), tw)))
+    return hits
+
+
+def monitor(case, res, want=None):
+    hits = monitor_all(case, res)
+    if want is not None:
+        hits = [h for h in hits if h[0] == want]
+    return hits[0] if hits else None
 
 
 def shrink_case(ck, binary, case, fp):
@@ -353,8 +450,7 @@ def shrink_case(ck, binary, case, fp):
             res, crash = run_impl(ck, binary, [c], "dd")
             if crash:
                 return False
-            m = monitor(c, res[0])
-            if m and m[0] == fp:
+            if monitor(c, res[0], fp):
                 return True
         return False
     cur = json.loads(json.dumps(case))
@@ -401,7 +497,8 @@ def run(ck):
     if not hasattr(ck, "_c42"):
         generate(ck)
     ck.cov["rule"] = ("generated KafscaleCluster specs (brokers/service/resources/s3/etcd/config/lfsProxy with boundary values, multi-entry "
-                      "maps) x operator environments, each reconciled 3x on one fake API server and once on a fresh one; a case is "
+                      "maps, cluster names of 1..60 chars with boundaries around the 52/63 limits of derived names) x operator environments, each "
+                      "reconciled 3x on one fake API server (write requests recorded per pass) and once on a fresh one, plus once under a short twin name; a case is "
                       "non-trivial when it produced at least 6 objects; distinct = distinct (spec, env)")
     n = 60 if ck.quick() else 500
     cases = [gen_case(ck.rng.fork(), i) for i in range(n)]
@@ -423,13 +520,16 @@ def run(ck):
         ck.cov["traces_validated_against_impl"] += 1
         for o in r.get("objects", []):
             types_seen[o["kind"] + " " + o["name"]] = types_seen.get(o["kind"] + " " + o["name"], 0) + 1
-        m = monitor(case, r)
-        if m:
-            fp, what = m
-            if fp not in [v["fingerprint"] for v in ck.violations]:
-                small = shrink_case(ck, binary, case, fp)
-                ck.violation(fp, what, {"case": small, "expected": "every object identical after each further reconcile and on a fresh API server",
-                                        "actual": what})
+        ck.count("name_len_ge34" if len(case["name"]) >= 34 else "name_len_lt34")
+        ck.count("repeat_pass_write_requests", len(r.get("repeat_writes") or []))
+        ms = monitor_all(case, r)
+        if ms:
+            for fp, what in ms:
+                if fp not in [v["fingerprint"] for v in ck.violations]:
+                    small = shrink_case(ck, binary, case, fp)
+                    ck.violation(fp, what, {"case": small, "expected": "every object identical after each further reconcile and on a fresh "
+                                            "API server; no write request and no resourceVersion change on repeat reconciles; same number "
+                                            "of owned objects per kind as the same spec under a short cluster name", "actual": what})
             continue
         ops, meta, _ = coverage_ops(ck, r)
         for op, mt in zip(ops, meta):
@@ -499,7 +599,7 @@ def replay(ck, path):
             ck.broke("implementation harness did not answer", crash)
             return
         print("  attempt %d: %s" % (attempt + 1, json.dumps({k: v for k, v in res[0].items() if k != "objects"})))
-        hit = monitor(case, res[0])
+        hit = monitor(case, res[0], rep.get("fingerprint")) or monitor(case, res[0])
         if hit:
             break
     ck.case(json.dumps(case, sort_keys=True), sample={"case": case})
